@@ -462,7 +462,7 @@ NAME_POOL = ['a', 'b', 'c', 'd', 'lib/x', 'lib/y', 'x.y', 'out.txt', 'a b',
              'w&w', 'é']
 
 
-def render_script(steps):
+def render_script(steps, defaults=()):
     lines = []
     for i, s in enumerate(steps):
         deps = '[' + ', '.join('s{}'.format(d) for d in s['deps']) + ']'
@@ -479,6 +479,11 @@ def render_script(steps):
         elif s['kind'] == 'copy_file':
             lines.append('{} = copy_file({!r}, {!r}, extra_deps={})'
                          .format(v, s['name'], 'data.in', deps))
+    ids = [s['id'] for s in steps]
+    dflt = [d for d in defaults if d in ids]
+    if dflt:
+        lines.append('default({})'.format(', '.join('s{}'.format(d)
+                                                    for d in dflt)))
     return '\n'.join(lines) + '\n'
 
 
@@ -566,6 +571,20 @@ class MsbuildMachine(RuleBasedStateMachine):
         self.runs = 0
         self.survived_change = False
         self.changed_since = False
+        self.defaults = []      # ids of the explicit default outputs
+
+    @precondition(lambda self: any(s['kind'] in ('build_step', 'copy_file')
+                                   for s in self.steps))
+    @rule(data=st.data())
+    def set_defaults(self, data):
+        ids = [s['id'] for s in self.steps
+               if s['kind'] in ('build_step', 'copy_file')]
+        n = data.draw(st.integers(0, min(3, len(ids))))
+        self.defaults = list(data.draw(st.permutations(ids)))[:n]
+        by_id = {s['id']: s['name'] for s in self.steps}
+        self.history.append(['set_defaults',
+                             [by_id[d] for d in self.defaults]])
+        self.changed_since = True
 
     def _setup(self):
         if self.tmp is None:
@@ -610,6 +629,9 @@ class MsbuildMachine(RuleBasedStateMachine):
              'deps': sorted(chosen), 'arg': arg}
         self.next_id += 1
         self.steps.append(s)
+        if kind in ('build_step', 'copy_file') and \
+                deps.draw(st.integers(0, 2)) == 0:
+            self.defaults.append(s['id'])      # an explicit default
         self.history.append(['add', kind, name, s['deps']])
         self.changed_since = True
 
@@ -652,7 +674,7 @@ class MsbuildMachine(RuleBasedStateMachine):
     def generate(self, how):
         self._setup()
         sandbox.write_file(os.path.join(self.src, 'build.bfg'),
-                           render_script(self.steps))
+                           render_script(self.steps, self.defaults))
         if not self.configured or how == 'configure':
             r = sandbox.configure(self.src, self.bld, self.env,
                                   backend='msbuild')
@@ -663,7 +685,9 @@ class MsbuildMachine(RuleBasedStateMachine):
         by_id = {s['id']: s['name'] for s in self.steps}
         self.history.append([op, [[s['kind'], s['name'],
                                    [by_id[d] for d in s['deps']], s['arg']]
-                                  for s in self.steps]])
+                                  for s in self.steps],
+                             [by_id[d] for d in self.defaults
+                              if d in by_id]])
         case = {'history': self.history}
         if r.rc != 0:
             v = Violation('msbuild/' + op + '-failed', '{} exited {}: {}'
@@ -708,8 +732,10 @@ def replay_history(history, rec):
                 dn = s.pop('_d')
                 s['deps'] = [j for j, t in enumerate(steps)
                              if t['name'] in dn]
-            sandbox.write_file(os.path.join(src, 'build.bfg'),
-                               render_script(steps))
+            dnames = h[2] if len(h) > 2 else []
+            sandbox.write_file(os.path.join(src, 'build.bfg'), render_script(
+                steps, [j for n in dnames for j, t in enumerate(steps)
+                        if t['name'] == n]))
             if h[0] == 'configure':
                 r = sandbox.configure(src, bld, env, backend='msbuild')
             else:
